@@ -94,7 +94,7 @@ def bounds(tier):
                             "shared-eqlr": "actor-critic algorithms only, M=2, lr_actor is lr_critic"},
                   "population": [2, 3], "pick": "every configured hyper-parameter (randperm scripted)", "direction_draws": DIRS,
                   "single_member_sequences_depth": 2 if q else 3,
-                  "whole_population_calls": "M=2: all orders x all assignments" + ("" if q else "; M=3: all orders x all assignments")},
+                  "whole_population_calls": "M=2: all orders x all assignments" + ("" if q else "; M=3 (kind created): all orders x all assignments")},
     }
 
 
@@ -120,7 +120,7 @@ def tasks(tier, seed):
                         for h in range(H):
                             out.append({"layer": "b", "mode": "seq", "algo": algo, "kind": kind, "M": M, "depth": depth,
                                         "first": [i, h], "_cost": w * 2 * (1 + b + b * b) / 10})
-                if M == 2 or not q:
+                if M == 2 or (not q and kind == "created"):
                     for order in itertools.permutations(range(M)):
                         out.append({"layer": "b", "mode": "whole", "algo": algo, "kind": kind, "M": M, "order": list(order),
                                     "_cost": w * M * (H * len(DIRS)) ** M / 10})
@@ -451,18 +451,17 @@ def judge(p: Partial, pop: Pop, pre, members, picks, draws, returned, rp, prior_
                 target = a1["vals"][lrn]
                 bad = [x for grp in lrs for x in grp if x != target]
                 if bad:
-                    if lrn == n:
-                        if a1["lr_name"].get(attr) != lrn:
-                            feat = "optimizer-registered-under-wrong-lr-name"
-                        elif governed.index(attr) > 0:
-                            feat = "later-optimizer-sharing-the-lr"
-                        else:
-                            feat = "first-optimizer-of-the-lr"
-                        p.viol(f"{kp}/lr-not-applied-to-optimizer/{feat}",
-                               f"{algo} [{pop.kind}] member {j}: {n} mutated to {target!r} but {attr} param_group lrs are {lrs} "
-                               f"(optimizer's recorded lr_name={a1['lr_name'].get(attr)!r})", rp, observed=lrs, expected=target)
+                    if a1["lr_name"].get(attr) != lrn:
+                        # one defect, two symptoms (the governing lr is not applied / a foreign lr is applied): one key
+                        p.viol(f"{kp}/lr/optimizer-registered-under-wrong-lr-name",
+                               f"{algo} [{pop.kind}] member {j}: after mutating {n}, {attr} (governed by {lrn}={target!r}) has param_group lrs {lrs}; "
+                               f"the optimizer is recorded under lr_name={a1['lr_name'].get(attr)!r}", rp, observed=lrs, expected=target)
+                    elif lrn == n:
+                        feat = "later-optimizer-sharing-the-lr" if governed.index(attr) > 0 else "first-optimizer-of-the-lr"
+                        p.viol(f"{kp}/lr/not-applied-to-optimizer/{feat}",
+                               f"{algo} [{pop.kind}] member {j}: {n} mutated to {target!r} but {attr} param_group lrs are {lrs}", rp, observed=lrs, expected=target)
                     else:
-                        p.viol(f"{kp}/unrelated-optimizer-lr-moved", f"{algo} member {j}: mutating {n} moved {attr} lrs to {lrs}, its {lrn} is {target!r}", rp,
+                        p.viol(f"{kp}/lr/unrelated-optimizer-lr-moved", f"{algo} member {j}: mutating {n} moved {attr} lrs to {lrs}, its {lrn} is {target!r}", rp,
                                observed=lrs, expected=target)
                     ok = False
                 if not a1["own"][attr]:
@@ -564,16 +563,19 @@ def run_agents(task, p: Partial):
                 prior = {i: bool(touched - {i})}
                 ok = do_call(p, child, mut, [i], [h], [DIRS[d]], {**base_rp, "depth": depth, "path": pth}, prior)
                 states.add(key(child))
+                last.update(path_member_hp_dir=pth, values_after=[dict(m) for m in child.model], agreed=ok)
                 if ok and left > 1:
                     rec(child, pth, touched | {i}, left - 1)
                 else:
                     p.traces += 1
         saved.restore(pop)
 
+    last = {}
+
     rec(root, [], set(), depth)
     p.states += len(states)
     p.sample({"layer": "b", "mode": "seq", "algo": algo, "kind": kind, "M": M, "depth": depth, "first": task.get("first"),
-              "step_alphabet": "member x hyper-parameter x {shrink,grow}"})
+              "step_alphabet": "member x hyper-parameter x {shrink,grow}", "hyperparameters": root.names, "last_sequence": last})
 
 
 def run_task(task):
